@@ -6,7 +6,7 @@ from hypothesis import strategies as st
 from vlib.harness import require as assume
 
 from vlib import cy, gens, ref
-from vlib.harness import Cell, Violation
+from vlib.harness import Cell, Violation, require
 from props import common_lie as L
 
 RULE = (
@@ -235,13 +235,74 @@ def make_cells(gi, tier):
                         atol=1e-12, rtol=1e-12, scale=float(np.max(np.abs(want))), eps=eps)
 
     cells.append(Cell("%s/numeric_mode" % nm, num_seq(), check_numeric, lambda c: L.nontrivial_elem(c["X"]), quick=30, thorough=500))
+    # ---- action on vectors (X @ v): the group acts through its matrix form
+    if nm in ("SO2", "SO3Quat", "SO3Mrp", "SO3Dcm", "SO3EulerB321"):
+        d = gi.mshape[0]
+
+        def mk_act():
+            ca = cy.ca
+            X, Y, v = gi._X("X"), gi._X("Y"), ca.SX.sym("v", d)
+            with cy.quiet():
+                from cyecca.lie import group_rn
+            ralg = group_rn.r2 if d == 2 else group_rn.r3
+            ex, ey = gi.G.elem(X), gi.G.elem(Y)
+            a1 = ex @ v
+            a2 = (ex @ ralg.elem(v)).param
+            a3 = ex @ (ey @ v)
+            a4 = (ex * ey) @ v
+            return [X, Y, v], [ca.densify(a1), ca.densify(a2), ca.densify(a3), ca.densify(a4)]
+
+        act = cy.Fn("%s_action" % nm, mk_act)
+
+        def check_act(case):
+            X, Y, v = enc(case["X"]), enc(case["Y"]), np.array(case["v"], float)
+            assume(_valid_inputs(gi, [X, Y]) and _mrp_pairs_ok(gi, X, Y))
+            a1, a2, a3, a4 = [cy.vec(o) for o in act(X, Y, v)]
+            MX, MY = gi.toM(X), gi.toM(Y)
+            sc = 1 + float(np.max(np.abs(v)))
+            if a1.shape != (d,):
+                raise Violation("%s: X @ v has %d entries for a %d-vector" % (nm, a1.shape[0], d))
+            L.close(a1, MX @ v, "%s: X @ v vs M(X) v" % nm, atol=1e-12 * sc, rtol=0, X=X.tolist(), v=v.tolist())
+            L.close(a2, MX @ v, "%s: X @ (R^n algebra element) vs M(X) v" % nm, atol=1e-12 * sc, rtol=0, X=X.tolist(), v=v.tolist())
+            L.close(a3, MX @ (MY @ v), "%s: X @ (Y @ v) vs M(X) M(Y) v" % nm, atol=1e-12 * sc, rtol=0, X=X.tolist(), Y=Y.tolist(), v=v.tolist())
+            tol = L.mat_tol(gi, MX @ MY)
+            L.close(a4, MX @ (MY @ v), "%s: (X * Y) @ v vs M(X) M(Y) v" % nm, atol=(tol if tol > 1e-9 else 1e-9) * sc, rtol=0,
+                    X=X.tolist(), Y=Y.tolist(), v=v.tolist())
+            if d == 3:
+                # numeric (DM) vectors are accepted by the SO(3) elements as well
+                with cy.quiet():
+                    r = gi.G.elem(cy.ca.DM(X)) @ cy.ca.DM(v)
+                L.close(cy.vec(cy.arr(cy.ca.evalf(cy.ca.densify(cy.ca.SX(r))))), MX @ v, "%s: X @ v on numeric operands vs M(X) v" % nm,
+                        atol=1e-12 * sc, rtol=0, X=X.tolist(), v=v.tolist())
+
+        cells.append(Cell("%s/action" % nm, st.fixed_dictionaries({"X": elem, "Y": elem, "v": gens.vector(d, scales=(-1, 0, 1, 2))}), check_act,
+                          lambda c: nontrivial([c["X"], c["Y"]]) and any(c["v"]), lambda c: classify([c["X"], c["Y"]]),
+                          quick=120, thorough=3000, build=lambda: act.build()))
     return cells
+
+
+def euler_variant_cell():
+    def check(case):
+        i = case["variant"]
+        require(0 <= i < len(L.euler_variants()))
+        name, ty, seq, G = L.euler_variants()[i]
+        ang, v = np.array(case["ang"], float), np.array(case["y"], float)
+        M = L.euler_variant_fn(i, "toM")(ang)
+        want = L.euler_variant_matrix(ty, seq, ang)
+        L.close(M, want, "%s: matrix form vs the product of the elementary rotations of its sequence" % name, atol=1e-12, rtol=0, **case)
+        L.close(L.euler_variant_fn(i, "ident")(), np.eye(3), "%s: matrix form of the identity element" % name, atol=0, rtol=0)
+        got = cy.vec(L.euler_variant_fn(i, "act")(ang, v))
+        L.close(got, want @ v, "%s: X @ v vs M(X) v" % name, atol=1e-12 * (1 + float(np.max(np.abs(v)))), rtol=0, **case)
+
+    return Cell("SO3EulerVariants/matrix", L.euler_variant_case(), check, lambda c: sum(abs(a) > 1e-2 for a in c["ang"]) >= 2,
+                lambda c: [L.euler_variants()[c["variant"]][1]], quick=460, thorough=6000)
 
 
 def build(tier):
     cells = []
     for gi in L.all_groups(tier):
         cells += make_cells(gi, tier)
+    cells.append(euler_variant_cell())
     return {
         "cells": cells,
         "rule": RULE,
